@@ -526,6 +526,12 @@ pub fn replay_file(p: &dyn Property, path: &str, trace: bool) -> i32 {
   });
   let expected_kind = file["violation"]["kind"].as_str().unwrap_or("").to_string();
   let expected_hash = file["log_hash"].as_str().unwrap_or("").to_string();
+  if expected_kind == "crash" && std::env::var_os("VSIM_REPLAY_CHILD").is_none() {
+    // The recorded run killed (or hung) its worker process. Re-execute it in
+    // a child, so that the same death / hang becomes a verdict here instead
+    // of taking the replay command down with it.
+    return replay_crash_in_child(p, path, trace);
+  }
   let (rep, tr) = p.replay(&file["case"], trace);
   if trace {
     for l in &tr {
@@ -553,5 +559,62 @@ pub fn replay_file(p: &dyn Property, path: &str, trace: bool) -> i32 {
   } else {
     println!("replay is clean on this tree");
     0
+  }
+}
+
+/// Replay of a case whose recorded violation is `crash`: the case runs in a
+/// child process under the same watchdog rule as a batch (no exit within
+/// 150 s = hang).
+fn replay_crash_in_child(p: &dyn Property, path: &str, trace: bool) -> i32 {
+  use std::process::{Command, Stdio};
+  let exe = std::env::current_exe().expect("current_exe");
+  let mut cmd = Command::new(exe);
+  cmd.arg("replay").arg(p.id()).arg(path);
+  if trace {
+    cmd.arg("--trace");
+  }
+  cmd.env("VSIM_REPLAY_CHILD", "1").stdin(Stdio::null());
+  let mut child = match cmd.spawn() {
+    Ok(c) => c,
+    Err(e) => {
+      eprintln!("HARNESS-ERROR: cannot start the replay child: {}", e);
+      return 2;
+    }
+  };
+  let start = Instant::now();
+  let status = loop {
+    match child.try_wait() {
+      Ok(Some(st)) => break Some(st),
+      Ok(None) => {
+        if start.elapsed().as_secs() > 150 {
+          let _ = child.kill();
+          let _ = child.wait();
+          break None;
+        }
+        std::thread::sleep(std::time::Duration::from_millis(50));
+      }
+      Err(e) => {
+        eprintln!("HARNESS-ERROR: waiting for the replay child: {}", e);
+        return 2;
+      }
+    }
+  };
+  match status {
+    None => {
+      println!("  violation kind=crash op=process detail=the replayed run made no progress for 150 s (a real, unsimulated wait: hang)");
+      println!("VIOLATION property={} replay={}", p.id(), path);
+      1
+    }
+    Some(st) => match st.code() {
+      // the child printed its own verdict (clean, or a violation of another kind)
+      Some(0) => 0,
+      Some(1) => 1,
+      Some(2) => 2,
+      _ => {
+        println!("  violation kind=crash op=process detail=the replayed run killed its process ({})", st);
+        println!("VIOLATION property={} replay={}", p.id(), path);
+        1
+      }
+    },
   }
 }
